@@ -101,20 +101,10 @@ class Gen:
         return ("file", None, ">", ("ps", ">", [item1(("simple", [], "cat", [("r", ("file", None, ">>", ("w", self.ofile())))]))]))
 
     def redirs_comp(self):
-        """redirect list of a compound command: mostly fd-less (those print re-readably today)"""
+        """redirect list of a compound command (fd numbers and digit targets included)"""
         if not self.chance(0.3):
             return []
-        if self.chance(0.2 * self.weird):
-            return self.redirs(0.7, 3) or [("file", 2, ">&", ("w", "1"))]
-        out = []
-        for _ in range(self.rng.randint(1, 2)):
-            r = self.redir()
-            if r[0] in ("file", "hs", "hd") and r[1] is not None:
-                r = (r[0], None) + tuple(r[2:])
-            if r[0] == "file" and r[3][0] == "w" and r[3][1].isdigit():
-                r = ("file", None, ">>", ("w", self.ofile()))
-            out.append(r)
-        return out
+        return self.redirs(0.6, 3) or [("file", 2, ">&", ("w", "1"))]
 
     def redirs(self, p=0.3, maxn=3):
         out = []
